@@ -70,6 +70,17 @@ type ExecDouble struct {
 	// must be a function of its arguments (an execution layer is deterministic); it may return nil or an empty slice:
 	// the interface does not promise a root of any particular length.
 	RootFn func(height uint64, prevRoot []byte, txs [][]byte) []byte
+	// SlowExec, if set, is how long ExecuteTxs takes for a block of that height (every time it is executed: the cost of
+	// a block is a property of the block). Like CallDelay the wait honours the context: a call whose context ends first
+	// is aborted with AbortErr (default: the context's error). Set it before the node starts.
+	SlowExec    func(height uint64) time.Duration
+	slowAborted atomic.Int64
+	slowDone    atomic.Int64
+}
+
+// SlowExecCounts returns how many SlowExec waits were cut short by their context and how many ran to their end.
+func (e *ExecDouble) SlowExecCounts() (aborted, completed int64) {
+	return e.slowAborted.Load(), e.slowDone.Load()
 }
 
 // InFlightGetTxs returns how many GetTxs calls are currently waiting inside the double.
@@ -190,6 +201,24 @@ func (e *ExecDouble) ExecuteTxs(ctx context.Context, txs [][]byte, blockHeight u
 	e.delay("exec")
 	if err := e.slowCall(ctx, false); err != nil {
 		return nil, 0, err
+	}
+	if e.SlowExec != nil {
+		if d := e.SlowExec(blockHeight); d > 0 {
+			select {
+			case <-time.After(d):
+			case <-ctx.Done():
+			}
+			// (a context that has ended by the time the work is done counts as ended first: on a loaded machine both may be
+			// due when this goroutine runs again, and which one it is must not depend on that)
+			if ctx.Err() != nil {
+				e.slowAborted.Add(1)
+				if e.AbortErr != nil {
+					return nil, 0, e.AbortErr
+				}
+				return nil, 0, ctx.Err()
+			}
+			e.slowDone.Add(1)
+		}
 	}
 	e.mu.Lock()
 	defer e.mu.Unlock()
